@@ -118,6 +118,7 @@ type Table struct {
 	meta       RowMeta
 	rows       []*Row
 	rowmap     map[string]*Row
+	delmap     map[string]bool // 数据库中已存在、但在缓存中已被标记删除(尚未Save)的主键
 	kvdb       db.KV
 	opt        *Option
 	autoinc    *Count
@@ -173,6 +174,7 @@ func NewTable(rowmeta RowMeta, kvdb db.KV, opt *Option) (*Table, error) {
 		meta:       rowmeta,
 		kvdb:       kvdb,
 		rowmap:     make(map[string]*Row),
+		delmap:     make(map[string]bool),
 		opt:        opt,
 		autoinc:    count,
 		dataprefix: dataprefix,
@@ -197,6 +199,7 @@ func (table *Table) addRowCache(row *Row) {
 	primary := string(row.Primary)
 	if row.Ty == Del {
 		delete(table.rowmap, primary)
+		table.delmap[primary] = true
 	} else if row.Ty == Add || row.Ty == Update {
 		table.rowmap[primary] = row
 	}
@@ -236,6 +239,10 @@ func (table *Table) mergeCache(rows []*Row, indexName string, indexValue []byte)
 func (table *Table) findRow(primary []byte) (*Row, bool, error) {
 	if row, ok := table.rowmap[string(primary)]; ok {
 		return row, true, nil
+	}
+	//数据库中的行已经在缓存中被删除(等待Save), 对后续操作来说该行不存在
+	if table.delmap[string(primary)] {
+		return nil, false, types.ErrNotFound
 	}
 	row, err := table.GetData(primary)
 	return row, false, err
@@ -413,6 +420,11 @@ func (table *Table) Del(primaryKey []byte) error {
 	}
 	//copy row
 	delrow := *row
+	//缓存中是尚未保存的更新: 数据库里的数据和索引仍是旧数据, 需要按旧数据删除
+	if incache && delrow.old != nil {
+		delrow.Data = delrow.old
+		delrow.old = nil
+	}
 	delrow.Ty = Del
 	table.addRowCache(&delrow)
 	return nil
@@ -506,6 +518,7 @@ func (table *Table) Save() (kvs []*types.KeyValue, err error) {
 	kvs = append(kvs, kvlist...)
 	//del cache
 	table.rowmap = make(map[string]*Row)
+	table.delmap = make(map[string]bool)
 	table.rows = nil
 	return util.DelDupKey(kvs), nil
 }
